@@ -514,6 +514,12 @@ namespace bluetoe {
             out_size = 0;
             break;
 
+        // notifications and indications are send by a server; a server does not respond to them
+        case details::att_opcodes::notification:
+        case details::att_opcodes::indication:
+            out_size = 0;
+            break;
+
         case details::att_opcodes::exchange_mtu_request:
             handle_exchange_mtu_request( input, in_size, output, out_size, connection );
             break;
